@@ -266,7 +266,7 @@ GM                   = {gm:11.4f} [km**3/s**2]
 
     # Covariance handling
     if cart.cov is not None:
-        text += dump_cov(cart.cov)
+        text += dump_cov(cart.cov, cart.frame)
 
     if cart.maneuvers:
         for i, man in enumerate(cart.maneuvers):
